@@ -1046,7 +1046,7 @@ PROPS = {
                        '(moments, uniformity, independence, seeding reproducibility) is statistical and NOT decided.',
         'assumptions': STD_ASSUME + [
             'libstdc++ normal_distribution / uniform_int_distribution / default_random_engine: assumed contract (declared-only draws)',
-            'no moment, tail, balance, independence or re-seeding claim is decided (seed S20 -- a sampler object that keeps a cached draw across a re-seed -- is not detected); bootstrapping-key rows: plumbing down to tLweSymEncryptZero(row, alpha_min of the accumulator parameters); key-switching-key rows: bounded stand-in on small shapes (draw count, alpha of the output key, row position, row message); which recentred noise entry goes to which row, and the recentring arithmetic, are not decided (IEEE sums)',
+            'no moment, tail, balance or independence claim is decided; re-seeding: only the static fact that no gaussian sampler object outlives a call (its cached value would survive a re-seed, seed S20) -- the generator itself is assumed; bootstrapping-key rows: plumbing down to tLweSymEncryptZero(row, alpha_min of the accumulator parameters); key-switching-key rows: UNBOUNDED in n for a watched symbolic index (every row of that index once, right message, output key and its alpha_min, noise array indexed in bounds), plus the bounded whole-table check; which noise entry reaches which row and the recentring arithmetic in doubles are not decided; ring keys (tLweKeyGen / tGswKeyGen), torusPolynomialUniform, TGSW encrypt wrappers and the key-set generator are under contract',
             'the variance annotation alpha^2 is proved for the enumerated alphas (IEEE product, see DESIGN 8.2)',
         ],
         'trusted': [],
